@@ -56,7 +56,7 @@ def detect(prop: str, seed_dir: str):
 def main() -> None:
     dirs = sys.argv[1:] or sorted(os.path.join(VERIF, "seeded", d) for d in os.listdir(os.path.join(VERIF, "seeded")))
     for d in dirs:
-        d = d.rstrip("/")
+        d = os.path.abspath(d.rstrip("/"))
         name = os.path.basename(d)
         prop = name.split("_")[0]
         cf = os.path.join(d, "confirm.json")
